@@ -51,6 +51,7 @@ CONV = {
     "int(fixed_digits=2)": (r"[0-9]{2}", r"[0-9]+", int, 0, ["12", "07"], ["1", "123"]),
     "float": (r"[0-9]+\.[0-9]+", r"[0-9]+\.[0-9]+", float, 0, ["1.5", "12.25"], ["1.", "1"]),
     "any(ab,cd)": (r"(?:ab|cd)", r"(?:ab|cd)", str, 1, ["ab", "cd"], ["abx", "a"]),
+    'any("a.b",cd)': (r"(?:a\.b|cd)", r"(?:a\.b|cd)", str, 1, ["a.b", "cd"], ["axb", "a"]),
     "uuid": (_UUID_RX, _UUID_RX, uuid.UUID, 1, [U1, U2], [U1[:-1]]),
 }
 
@@ -131,26 +132,30 @@ class RefRule:
         self.has_path = any(s[0] == "path" for s in sp["segs"])
         self.strict = sp.get("strict")
         self.merge = sp.get("merge")
-        rx, loose, self.conv, keys = [], [], {}, []
+        rx, loose, nonl, self.conv, keys = [], [], [], {}, []
         for i, s in enumerate(sp["segs"]):
             if s[0] == "lit":
                 rx.append(re.escape(s[1]))
+                nonl.append(rx[-1])
                 loose.append(re.escape(s[1]))
                 keys.append((("lit", s[1]), (0,)))
             elif s[0] == "var":
                 r, lr, py, cls, _, _ = CONV[s[2]]
                 rx.append(f"{re.escape(s[1])}(?P<v{i}>{r}){re.escape(s[3])}")
+                nonl.append(rx[-1])
                 loose.append(f"{re.escape(s[1])}(?P<v{i}>{lr}){re.escape(s[3])}")
                 self.conv[f"v{i}"] = py
                 keys.append((("var", s[1], r, s[3]), (1, -(bool(s[1]) + bool(s[3])), cls)))
             else:
                 r = "[^/](?:.*[^/])?" if self.branch else "[^/].*"
                 rx.append(f"{re.escape(s[1])}(?P<v{i}>{r})")
+                nonl.append(f"{re.escape(s[1])}(?P<v{i}>{r.replace('[^/])?', '[^/' + chr(92) + 'n])?')})")
                 loose.append(rx[-1])
                 self.conv[f"v{i}"] = str
                 keys.append((("path", s[1], self.branch), (1, -int(bool(s[1])), 2)))
         tail = "/" if (self.branch and sp["segs"]) else ""
         self.rx = re.compile("/" + "/".join(rx) + tail, re.S)
+        self.rx_nonl = re.compile("/" + "/".join(nonl) + tail)  # alternative reading: '.' of a path value stops at "\n"
         self.loose_rx = re.compile("/" + "/".join(loose) + tail, re.S)
         if self.branch:
             keys.append((("lit", ""), (0,)))
@@ -161,26 +166,27 @@ class RefRule:
     def _vals(self, m):
         return {k: self.conv[k](v) for k, v in m.groupdict().items()}
 
-    def admit(self, p, strict, tol_branch=False):
+    def admit(self, p, strict, tol_branch=False, path_nl=True):
         """first mode in which this rule admits path p, or None -> (mode, values).
         tol_branch=True is the alternative reading 'a non-strict BRANCH rule (without a path converter) also admits
         one extra trailing slash'
         (used only to name failures)."""
-        k = (p, strict, tol_branch)
+        k = (p, strict, tol_branch, path_nl)
         try:
             return self._memo[k]
         except KeyError:
             pass
         res = None
-        m = self.rx.fullmatch(p)
+        rx = self.rx if path_nl else self.rx_nonl
+        m = rx.fullmatch(p)
         if m:
             res = (EXACT, self._vals(m))
         elif self.branch and not p.endswith("/"):
-            m = self.rx.fullmatch(p + "/")
+            m = rx.fullmatch(p + "/")
             if m:
                 res = (SLASH, self._vals(m))
         elif ((tol_branch and not self.has_path) or not self.branch) and (not strict) and p.endswith("/"):
-            m = self.rx.fullmatch(p[:-1])
+            m = rx.fullmatch(p[:-1])
             if m:
                 res = (TOL, self._vals(m))
         if len(self._memo) < 200000:
@@ -224,7 +230,8 @@ def merge_pairs(p):  # what a single left-to-right pass replacing "//" by "/" gi
     return p.replace("//", "/")
 
 
-def expect(refs, map_strict, map_merge, path, method, ws=False, merge_fn=merge_full, slash405=True, tol_branch=False):
+def expect(refs, map_strict, map_merge, path, method, ws=False, merge_fn=merge_full, slash405=True, tol_branch=False,
+           path_nl=True):
     """set of acceptable outcomes for MapAdapter.match(path, method); refs are in canonical (endpoint) order.
     outcome: ("match", endpoint, values) | ("redirect", decoded target path) | ("405", frozenset) | ("404",)
              | ("wsmismatch",)"""
@@ -241,7 +248,7 @@ def expect(refs, map_strict, map_merge, path, method, ws=False, merge_fn=merge_f
     def one_pass(q):
         elig = []
         for idx, r in enumerate(refs):
-            a = r.admit(q, strict_of(r), tol_branch)
+            a = r.admit(q, strict_of(r), tol_branch, path_nl)
             if a is None:
                 continue
             if r.methods is not None and method not in r.methods:
@@ -315,6 +322,7 @@ ALT = [  # alternative readings, used ONLY to give a failure a stable, specific 
     ("405.slashless_branch", {"slash405": False}),
     ("merge.run_of_3plus", {"merge_fn": merge_pairs}),
     ("match.nonstrict_branch_extra_slash", {"tol_branch": True}),
+    ("match.path_value_with_newline", {"path_nl": False}),
 ]
 
 
@@ -333,6 +341,8 @@ def classify(refs, strict, merge, path, method, ws, obs):
                 continue
             if "tol_branch" in kw and all((strict if r.strict is None else r.strict) for r in refs):
                 continue
+            if "path_nl" in kw and "\n" not in p:
+                continue
             if obs in expect(refs, strict, merge, path, method, ws, **kw):
                 names = []
                 for n, _ in combo:
@@ -340,6 +350,11 @@ def classify(refs, strict, merge, path, method, ws, obs):
                         n += ".strict" if strict else ".nonstrict"
                     names.append(n)
                 return "+".join(names), exp
+    if obs[0] == "match" and isinstance(obs[1], int) and 0 <= obs[1] < len(refs):
+        r = refs[obs[1]]
+        a = r.admit(p, strict if r.strict is None else r.strict)
+        if a is None or _freeze(a[1]) != obs[2]:
+            return "match.returned_rule_does_not_admit", exp
     cands = {p}
     if merge:
         cands.add(merge_full(p))
@@ -390,12 +405,14 @@ def gen_paths(specs, rich=True):
         out[s + "/"] = 1
         if full:
             out["/" + s] = 1
+            out[s + "\n"] = 1
             out[s + "//"] = 1
             out[s + "/zz"] = 1
             if len(segs) >= 2:
                 out["/" + "//".join([segs[0], "/".join(segs[1:])])] = 1
                 out["/" + "//".join(["/".join(segs[:-1]), segs[-1]])] = 1
                 out["/" + "///".join([segs[0], "/".join(segs[1:])])] = 1
+                out["/" + "//".join(segs) + "//"] = 1  # every joint and the end doubled
                 out["/" + "/".join(segs[:-1])] = 1
             else:
                 out["///" + segs[0]] = 1
@@ -423,7 +440,8 @@ def _seg_full():
     L = [lit("a"), lit("ab"), lit("a.b"), lit("12")]
     V = [var("default"), var("string"), var("string(length=2)"), var("string(minlength=2)"), var("int"),
          var("int(fixed_digits=2)"), var("float"), var("any(ab,cd)"), var("uuid"), var("int", pre="x"),
-         var("int", post="y"), var("string", pre="x"), var("string", post=".y"), var("int", pre="1")]
+         var("int", post="y"), var("string", pre="x"), var("string", post=".y"), var("int", pre="1"),
+         var("int", pre="a."), var('any("a.b",cd)')]
     return L + V
 
 
@@ -569,6 +587,7 @@ def eval_ruleset(acc, specs, refs, perms, configs=CONFIGS, ws_modes=(False,), ri
             methods.append("PUT")
     for strict, merge in configs:
         cache = {}
+        fcache = {}
         for pi, perm in enumerate(perms):
             cls = Rule if pi == 0 else LightRule
             try:
@@ -594,7 +613,11 @@ def eval_ruleset(acc, specs, refs, perms, configs=CONFIGS, ws_modes=(False,), ri
                                 acc.outcomes[e[0]] = acc.outcomes.get(e[0], 0) + 1
                         if obs in exp:
                             continue
-                        check, exp = classify(refs, strict, merge, p, meth, ws, obs)
+                        ck = (k, obs)
+                        check = fcache.get(ck)
+                        if check is None:  # same (path, method, observed) under another insertion order: same class
+                            check, exp = classify(refs, strict, merge, p, meth, ws, obs)
+                            fcache[ck] = check
                         if check is None:
                             continue
                         acc.fail(check, _inp(specs, perm, strict, merge, p, meth, ws), repr(obs), _exp_str(exp))
@@ -652,15 +675,15 @@ DOMAIN_QUICK = (
     "maps of rules '/seg/seg[/<path>][/]' with seg = literal | [literal]<converter>[literal], converters default, "
     "string, string(length=2), string(minlength=2), int, int(fixed_digits=2), float, any(ab,cd), uuid; leaf and branch; "
     "methods None/GET/POST/PUT; strict_slashes x merge_slashes at map level (4 configs); ALL insertion orders; "
-    "1-rule maps: all 4116 rules with <=2 segments (+ optional [x]<path>); 2-rule maps: all pairs of a 103-rule pool; "
+    "1-rule maps: all 5052 rules with <=2 segments (+ optional [x]<path>); 2-rule maps: all pairs of a 103-rule pool; "
     "3-rule maps: all triples of a 24-rule pool; websocket flag: all pairs of a 12-rule pool x http/ws request; "
     "paths: per rule the products of 2 hits + 1 near miss per segment, single-segment substitutions from the other "
-    "rules, with/without trailing slash, '//' and '///' at the first/last joint, leading '//', trailing '//', a "
-    "missing and an extra segment, '', '/', '//'; methods GET (+POST/HEAD/PUT when a rule has a method set)")
+    "rules, with/without trailing slash, '//' and '///' at the first/last joint, '//' at every joint, leading '//', trailing '//', a "
+    "missing and an extra segment, a trailing newline (%0A), '', '/', '//'; methods GET (+POST/HEAD/PUT when a rule has a method set)")
 DOMAIN_THOROUGH = DOMAIN_QUICK + (
-    "; thorough adds: all 4-rule subsets of the 24-rule pool (all 24 orders), seeded samples of triples of the "
-    "103-rule pool, of 5- and 6-rule subsets of the 24-rule pool (12 orders each) and of random 2..6-rule maps with "
-    "up to 3 segments per rule")
+    "; thorough adds: all 4-rule subsets of the 24-rule pool (6 of the 24 orders each), seeded samples: 6000 triples of "
+    "the 103-rule pool (all orders), 2000 5- and 6-rule subsets of the 24-rule pool (6 orders each), 3000 random 2..6-rule "
+    "maps with up to 3 segments per rule (4 orders each)")
 
 
 def run(tier, seed, reg=None):
@@ -678,16 +701,21 @@ def run(tier, seed, reg=None):
     tasks += [("sets", ("S", c, None, seed)) for c in _chunks(list(itertools.combinations(range(nS), 3)), 12)]
     tasks += [("sets", ("W", c, None, seed)) for c in _chunks(list(itertools.combinations(range(nW), 2)), 12)]
     if tier == "thorough":
-        tasks += [("sets", ("S", c, None, seed)) for c in _chunks(list(itertools.combinations(range(nS), 4)), 4)]
-        tri = [tuple(sorted(r.sample(range(nM), 3))) for _ in range(12000)]
+        exhaustive = False  # the thorough tier adds seeded samples to the exhaustive quick domain
+        tasks += [("sets", ("S", c, 6, seed)) for c in _chunks(list(itertools.combinations(range(nS), 4)), 8)]
+        tri = [tuple(sorted(r.sample(range(nM), 3))) for _ in range(6000)]
         tasks += [("sets", ("M", c, None, seed)) for c in _chunks(tri, 12)]
-        five = [tuple(sorted(r.sample(range(nS), k))) for k in (5, 6) for _ in range(2500)]
-        tasks += [("sets", ("S", c, 12, seed)) for c in _chunks(five, 4)]
+        five = [tuple(sorted(r.sample(range(nS), k))) for k in (5, 6) for _ in range(1000)]
+        tasks += [("sets", ("S", c, 6, seed)) for c in _chunks(five, 4)]
         rnd = []
-        for _ in range(6000):
+        for _ in range(3000):
             k = r.choice([2, 3, 3, 4, 4, 5, 6])
             rnd.append([_random_spec(r) for _ in range(k)])
-        tasks += [("specs", (c, 6, seed)) for c in _chunks(rnd, 6)]
+        tasks += [("specs", (c, 4, seed)) for c in _chunks(rnd, 6)]
+    sub = int(os.environ.get("BOUNDED_SUBSAMPLE", "1"))  # development aid (mutant screening): every k-th task only
+    if sub > 1:
+        tasks = tasks[::sub]
+        exhaustive = False
     acc = Acc()
     procs = min(16, os.cpu_count() or 4)
     ctx = mp.get_context("fork")
@@ -709,7 +737,7 @@ def run(tier, seed, reg=None):
                     "order, strict/merge config) compared with the reference outcome set; distinct_nontrivial = distinct "
                     "(rule set, config, path, method) whose expected outcome is not a plain 404",
             "domain": DOMAIN_THOROUGH if tier == "thorough" else DOMAIN_QUICK,
-            "exhaustive": exhaustive and tier == "quick" or tier == "thorough", "samples": samples,
+            "exhaustive": exhaustive, "samples": samples,
             "failures": failures[:25], "failure_counts": acc.fail_counts, "maps": acc.maps,
             "expected_outcome_kinds": acc.outcomes, "wall_s": round(time.time() - t0, 2)}
 
